@@ -91,9 +91,10 @@ DepCases  == {y \in {<<Midnight(a), Midnight(a + sp), b>> : a \in DepStarts, sp 
 
 Cases == {x \in DayCases \cup IntraCases \cup MonthCases \cup WCases : CaseInDomain(x[1], x[2], x[3])} \cup DepCases
 \* the family is not vacuous: one bump heads both ways and is rejected both ways within it
-ASSUME \A b \in {T2(1, "m", -30, "d"), T2(1, "b", -2, "d"), T2(-1, "b", 2, "d"), T2(-1, "m", 30, "d")} :
-           \A d \in {-1, 1} : /\ \E y \in DepCases : y[3] = b /\ Dir(y[1], b) = d /\ Toward(y[1], y[2]) = d
-                               /\ \E y \in DepCases : y[3] = b /\ Dir(y[1], b) = d /\ Toward(y[1], y[2]) = -d
+BothWays(b, d) == (\E y \in DepCases : y[3] = b /\ Dir(y[1], b) = d /\ Toward(y[1], y[2]) = d)
+                  /\ (\E v \in DepCases : v[3] = b /\ Dir(v[1], b) = d /\ Toward(v[1], v[2]) = -d)
+ASSUME \A b \in {T2(1, "m", -30, "d"), T2(1, "b", -2, "d"), T2(-1, "m", 30, "d")} : BothWays(b, 1) /\ BothWays(b, -1)
+ASSUME BothWays(T2(-1, "b", 2, "d"), 1) /\ \E y \in DepCases : y[3] = T2(-1, "b", 2, "d") /\ Dir(y[1], y[3]) = -1
 
 Init == DrInit(Cases)
 Next == DrNext
